@@ -763,6 +763,10 @@ def rerun_any(stream, line):
     if stream == "S6":
         req = harness_lines(["hist", "--case"] + line.split(" "))
         return req.strip(), req.strip()
+    if stream == "S8":
+        req = harness_lines(["heap", "--case"] + line.split(" "))
+        bad = "delta=0 " not in req + " "
+        return req.strip(), ("heap FAIL " + req.strip()) if bad else req.strip()
     return "", ""
 
 
@@ -1163,6 +1167,67 @@ def check_c13(prop, tier, seed):
     return finish(prop, tier, seed, t0, cov, violations, known_lines, notes)
 
 
+def check_c14(prop, tier, seed):
+    """no leak: theorems C14.* on the abstract reference-counting heap (arena invariant preserved by allocation
+    and in-place mutation; after release all edges point to older cells; no self-sustaining set), the
+    translator's syntactic check that every in-place mutation site works on a stack (arena) cell and that
+    push/reset/Drop keep the arena, and S8: live heap bytes before constructing a generator and after dropping
+    it, measured with a counting global allocator, for every case (incl. reset + second generation, warm-ups)."""
+    t0 = time.time()
+    cx = Ctx("C09", tier, seed)
+    cx.prop = "C14"
+    cov = cx.cov
+    violations, known_lines, notes = [], [], []
+    with Lock():
+        lean = build_lean()
+        har = build_harness()
+    obligations(cov, lean, ["C14"])
+    if not har["ok"]:
+        p = write_replay(prop, "correspondence", dict(stream="harness-build", detail=har["msg"][-800:]))
+        return finish(prop, tier, seed, t0, cov, [(p, " no-failing-input-found")], known_lines, notes)
+    plan = [("default", 2500), ("small", 1500), ("memo", 4)] if tier == "quick" else [("default", 60000), ("small", 30000), ("mid", 2000), ("memo", 60)]
+    seen = set()
+    total = 0
+    try:
+        for prof, n in plan:
+            out = harness_lines(["heap", "--cases", str(n), "--seed", str(seed * 29 + 3), "--profile", prof])
+            for l in out.split("\n"):
+                if not l.startswith("heap id"):
+                    continue
+                r = toks(l)
+                cov["evaluations"] += 1
+                cx.bump("P%s/%s/%s" % (r.get("P"), "rand" if r.get("mode", "").startswith("rand") else "arb", prof))
+                if r.get("twice") == "1":
+                    cx.bump("reset+second-generation")
+                seen.add(case_of(l)[:300])
+                d = int(r.get("delta", "0"))
+                total += d
+                if len(cov["samples"]) < 3:
+                    cov["samples"].append(dict(case=case_of(l)[:220], live_bytes_after_minus_before=d))
+                if d != 0:
+                    cx.failing.append(("S8", case_of(l), "%d_bytes_still_live_after_the_generator_was_dropped" % d))
+    except Exception as e:
+        cx.corr.append(dict(stream="S8", count=1, first="heap stream could not run: %s" % str(e)[:400]))
+    cov["distinct_nontrivial"] = len(seen)
+    cov["sum_of_deltas_bytes"] = total
+    cov["input_distribution"] = cx.hist
+    cov["not_modelled"] = ["which Rust statements are alloc / mutate / release is checked syntactically by the translator, not proved",
+                           "allocator behaviour (live bytes) is observed, not modelled; deep-recursion Drop is not examined"]
+    cov["impl_vs_oracle_failures"] = len(cx.failing)
+    if cx.failing:
+        stream, cl, det = cx.failing[0]
+        p = write_replay(prop, "failing-input", dict(stream="S8", case=cl, observed=det + " (and %d more leaking cases)" % (len(cx.failing) - 1),
+                         required="live heap bytes before constructing the generator = after dropping it",
+                         rerun="/verif/build/harness-target/release/pfv-harness heap --case " + cl))
+        violations.append((p, ""))
+    elif (not lean["ok"]) or cx.corr:
+        what = ([dict(kind="proof-obligation", broken=lean["broken"][:6])] if not lean["ok"] else []) + [dict(kind="correspondence", **c) for c in cx.corr]
+        p = write_replay(prop, "obligation", dict(no_longer_checks=what, note="no leaking generation was found"))
+        violations.append((p, " no-failing-input-found"))
+    return finish(prop, tier, seed, t0, cov, violations, known_lines, notes)
+
+
+EXTRA["C14"] = check_c14
 EXTRA["C13"] = check_c13
 EXTRA["C07"] = check_c07
 EXTRA["C12"] = check_c12
